@@ -487,7 +487,9 @@ Record c02_case := {
   k_rp0 : option rp_state;           (* public state of the detector's ReadoutProperties object before the run
                                         (None = no readout defined yet) *)
   k_plan : list (list wop);          (* what the writer probes do at each step *)
-  k_obs : ioutcome
+  k_obs : ioutcome;
+  k_after : option (det Z * option rp_state)   (* state the detector object was found in right after the run
+                                        (None: not compared, e.g. an Observation runs on copies) *)
 }.
 
 Definition mkrp (ts sts : list tv) (num : Z) (start : tv) (nd : bool) (t st : tv) (cnt : Z) : rp_state :=
@@ -500,12 +502,34 @@ Definition model_of (G : guard_table) (E : empty_table) (SR : sr_policy) (c : c0
   fst (scenario_st Z 0%Z G E SR (k_form c) (k_raw c) (k_start c) (k_nd c) (k_ops c) (prog_of (k_plan c))
                    {| ds_det := k_d0 c; ds_rp := k_rp0 c |}).
 
+Definition rp_eqb (a b : rp_state) : bool :=
+  list_eqb tv_eqb (rp_times a) (rp_times b) && list_eqb tv_eqb (rp_steps a) (rp_steps b)
+  && Z.eqb (rp_num a) (rp_num b) && tv_eqb (rp_start a) (rp_start b) && Bool.eqb (rp_nd a) (rp_nd b)
+  && tv_eqb (rp_time a) (rp_time b) && tv_eqb (rp_step a) (rp_step b) && Z.eqb (rp_count a) (rp_count b).
+Definition orp_eqb (a b : option rp_state) : bool :=
+  match a, b with Some x, Some y => rp_eqb x y | None, None => true | _, _ => false end.
+
+(* the state the object-level model leaves the detector in (buckets and ReadoutProperties object) *)
+Definition state_after (G : guard_table) (E : empty_table) (SR : sr_policy) (c : c02_case) : dstate Z :=
+  snd (scenario_st Z 0%Z G E SR (k_form c) (k_raw c) (k_start c) (k_nd c) (k_ops c) (prog_of (k_plan c))
+                   {| ds_det := k_d0 c; ds_rp := k_rp0 c |}).
+
+Definition after_ok (st : dstate Z) (a : option (det Z * option rp_state)) : bool :=
+  match a with
+  | None => true
+  | Some (d, rp) => det_eqb (ds_det st) d && orp_eqb (ds_rp st) rp
+  end.
+
 Definition case_mismatch (G : guard_table) (E : empty_table) (SR : sr_policy) (c : c02_case) : bool :=
   negb match model_of G E SR c, k_obs c with
        | Rejected s, IRejected s' n => Z.eqb s s' && Z.eqb n 0%Z
        | Ran os, IRan os' => list_eqb obs_eqb os os'
        | _, _ => false
        end.
+
+(* informational only (what a run leaves behind is not part of the property; recorded in the evidence) *)
+Definition case_after_differs (G : guard_table) (E : empty_table) (SR : sr_policy) (c : c02_case) : bool :=
+  negb (after_ok (state_after G E SR c) (k_after c)).
 
 (* the specification, evaluated on the implementation's observations alone *)
 Fixpoint obs_ok (nd : bool) (start : tv) (ts : list tv) (i : nat) (prev : option (det Z))
@@ -541,3 +565,5 @@ Fixpoint indices_where {X} (f : X -> bool) (l : list X) (i : Z) : list Z :=
 Definition mismatches (G : guard_table) (E : empty_table) (SR : sr_policy) (cs : list c02_case) : list Z :=
   indices_where (case_mismatch G E SR) cs 0%Z.
 Definition violations (cs : list c02_case) : list Z := indices_where case_violates cs 0%Z.
+Definition after_differs (G : guard_table) (E : empty_table) (SR : sr_policy) (cs : list c02_case) : list Z :=
+  indices_where (case_after_differs G E SR) cs 0%Z.
